@@ -95,6 +95,7 @@ func runC05(c *Ctx) {
 	ruleHeaderFieldsIndependent(c, p, "C05.fields-independent")
 	ruleCompressionOptionTable(c, p, "C05.option-table")
 	ruleNoEarlyDrop(c, p, "C05.no-early-drop")
+	ruleCompressInPlace(c, p, "C05.in-place")
 	succ := func(fn *ssa.Function) func(ssa.Instruction) bool {
 		return func(in ssa.Instruction) bool {
 			r, ok := in.(*ssa.Return)
@@ -1632,47 +1633,132 @@ func ruleCompressionOptionTable(c *Ctx, p *core.Program, rule string) {
 	if !c.must(p, "ch.Connect", cn != nil) {
 		return
 	}
-	tbl := switchTable(cn, func(v ssa.Value) bool { return core.IsNamed(v.Type(), core.PkgCh, "Compression") })
-	var phiC, phiM *ssa.Phi
-	for _, b := range cn.Blocks {
-		for _, in := range b.Instrs {
-			ph, ok := in.(*ssa.Phi)
-			if !ok {
-				continue
-			}
-			if core.IsNamed(ph.Type(), core.PkgProto, "Compression") {
-				phiC = ph
-			}
-			if core.IsNamed(ph.Type(), core.PkgCompress, "Method") {
-				phiM = ph
+	isSel := func(v ssa.Value) bool {
+		if _, isC := v.(*ssa.Const); isC {
+			return false
+		}
+		return core.IsNamed(v.Type(), core.PkgCh, "Compression")
+	}
+	// the function that maps the option: Connect itself or a helper it calls (the switch on the option lives there)
+	host := cn
+	if len(switchTable(cn, isSel)) == 0 {
+		for g := range core.StaticReach(cn, 2) {
+			if g.Blocks != nil && pkgOf(g) != nil && pkgOf(g).Path() == core.PkgCh && len(switchTable(g, isSel)) > 0 {
+				host = g
 			}
 		}
 	}
-	if len(tbl) == 0 || phiC == nil || phiM == nil || phiC.Block() != phiM.Block() {
-		c.R.Unk(rule, "Connect", cfg, p.Pos(cn.Pos()), sprintf("switch on Options.Compression with merged (proto.Compression, compress.Method) not recognised (%d cases)", len(tbl)))
+	if len(switchTable(host, isSel)) == 0 {
+		c.R.Unk(rule, "Connect", cfg, p.Pos(cn.Pos()), "no switch on Options.Compression found in Connect or the functions it calls")
 		return
 	}
-	merge := phiC.Block()
-	edgeFor := func(kv int64) int {
-		def := -1
-		for j, pred := range merge.Preds {
-			owned := false
-			for k2, blk := range tbl {
-				if blk == pred || blk.Dominates(pred) {
-					owned = true
-					if k2 == kv {
-						return j
-					}
+	// per constant: prune the host under `option == K` and read off the pair it yields - the merged variables
+	// (phis) in Connect, or the values of the one Return that stays reachable in a helper
+	valuesFor := func(kv int64) (cv, mv ssa.Value, ok bool) {
+		filter := core.FeasibleUnder(host, func(cond ssa.Value) int {
+			bo, isB := cond.(*ssa.BinOp)
+			if !isB || (bo.Op != token.EQL && bo.Op != token.NEQ) {
+				return -1
+			}
+			var k int64
+			var okc bool
+			switch {
+			case isSel(bo.X):
+				k, okc = core.ConstInt(bo.Y)
+			case isSel(bo.Y):
+				k, okc = core.ConstInt(bo.X)
+			}
+			if !okc {
+				return -1
+			}
+			if (k == kv) == (bo.Op == token.EQL) {
+				return 1
+			}
+			return 0
+		})
+		reach := map[*ssa.BasicBlock]bool{host.Blocks[0]: true}
+		work := []*ssa.BasicBlock{host.Blocks[0]}
+		for len(work) > 0 {
+			bb := work[len(work)-1]
+			work = work[:len(work)-1]
+			for i, sc := range bb.Succs {
+				if filter(bb, i) && !reach[sc] {
+					reach[sc] = true
+					work = append(work, sc)
 				}
 			}
-			if !owned {
-				def = j
+		}
+		var resolve func(v ssa.Value, d int) ssa.Value
+		resolve = func(v ssa.Value, d int) ssa.Value {
+			if d > 6 {
+				return nil
+			}
+			ph, isPhi := v.(*ssa.Phi)
+			if !isPhi {
+				return v
+			}
+			var got ssa.Value
+			for i, e := range ph.Edges {
+				pb := ph.Block().Preds[i]
+				if !reach[pb] {
+					continue
+				}
+				feasible := false
+				for j, sc := range pb.Succs {
+					if sc == ph.Block() && filter(pb, j) {
+						feasible = true
+					}
+				}
+				if !feasible {
+					continue
+				}
+				r := resolve(e, d+1)
+				if r == nil {
+					return nil
+				}
+				if got != nil {
+					ka, oka := core.ConstInt(got)
+					kb, okb := core.ConstInt(r)
+					if !oka || !okb || ka != kb {
+						return nil
+					}
+				}
+				got = r
+			}
+			return got
+		}
+		// a helper: the single reachable return
+		if res := host.Signature.Results(); res.Len() == 2 && core.IsNamed(res.At(0).Type(), core.PkgProto, "Compression") && core.IsNamed(res.At(1).Type(), core.PkgCompress, "Method") {
+			var rets []*ssa.Return
+			for bb := range reach {
+				if r, isR := bb.Instrs[len(bb.Instrs)-1].(*ssa.Return); isR {
+					rets = append(rets, r)
+				}
+			}
+			if len(rets) != 1 {
+				return nil, nil, false
+			}
+			return resolve(rets[0].Results[0], 0), resolve(rets[0].Results[1], 0), true
+		}
+		var phiC, phiM *ssa.Phi
+		for _, bb := range host.Blocks {
+			for _, in := range bb.Instrs {
+				ph, isPhi := in.(*ssa.Phi)
+				if !isPhi {
+					continue
+				}
+				if core.IsNamed(ph.Type(), core.PkgProto, "Compression") {
+					phiC = ph
+				}
+				if core.IsNamed(ph.Type(), core.PkgCompress, "Method") {
+					phiM = ph
+				}
 			}
 		}
-		if _, has := tbl[kv]; has {
-			return -1
+		if phiC == nil || phiM == nil {
+			return nil, nil, false
 		}
-		return def
+		return resolve(phiC, 0), resolve(phiM, 0), true
 	}
 	scope := p.Pkgs[core.PkgCh].Types.Scope()
 	var names []string
@@ -1686,21 +1772,25 @@ func ruleCompressionOptionTable(c *Ctx, p *core.Program, rule string) {
 	for _, nm := range names {
 		kv, _ := constOf(p, core.PkgCh, nm)
 		key := "option/" + nm
-		j := edgeFor(kv)
-		if j < 0 {
-			c.R.Unk(rule, key, cfg, p.Pos(cn.Pos()), "case not resolved")
+		cv, mv, ok := valuesFor(kv)
+		if !ok || cv == nil {
+			c.R.Unk(rule, key, cfg, p.Pos(host.Pos()), "case not resolved")
 			continue
 		}
 		n++
-		gc, ok1 := core.ConstInt(phiC.Edges[j])
-		gm, ok2 := core.ConstInt(phiM.Edges[j])
+		gc, ok1 := core.ConstInt(cv)
+		var gm int64
+		ok2 := false
+		if mv != nil {
+			gm, ok2 = core.ConstInt(mv)
+		}
 		x := strings.TrimPrefix(nm, "Compression")
 		if x == "Disabled" {
 			want, _ := constOf(p, core.PkgProto, "CompressionDisabled")
 			if ok1 && gc == want {
-				c.R.Ok(rule, key, cfg, p.Pos(phiC.Pos()), "-> proto.CompressionDisabled")
+				c.R.Ok(rule, key, cfg, p.Pos(host.Pos()), "-> proto.CompressionDisabled")
 			} else {
-				c.R.Bad(rule, key, cfg, p.Pos(phiC.Pos()), "CompressionDisabled does not map to proto.CompressionDisabled")
+				c.R.Bad(rule, key, cfg, p.Pos(host.Pos()), "CompressionDisabled does not map to proto.CompressionDisabled")
 			}
 			continue
 		}
@@ -1708,15 +1798,15 @@ func ruleCompressionOptionTable(c *Ctx, p *core.Program, rule string) {
 		wantM, okm := constOf(p, core.PkgCompress, x)
 		switch {
 		case !okm:
-			c.R.Unk(rule, key, cfg, p.Pos(phiM.Pos()), "no compress."+x+" constant")
+			c.R.Unk(rule, key, cfg, p.Pos(host.Pos()), "no compress."+x+" constant")
 		case !ok1 || !ok2:
-			c.R.Unk(rule, key, cfg, p.Pos(phiM.Pos()), "case values are not constants")
+			c.R.Unk(rule, key, cfg, p.Pos(host.Pos()), "case values are not constants")
 		case gc != wantC:
-			c.R.Bad(rule, key, cfg, p.Pos(phiC.Pos()), sprintf("%s is negotiated as compression value %d, not proto.CompressionEnabled: the server sends unframed blocks and no checksum is verified", nm, gc))
+			c.R.Bad(rule, key, cfg, p.Pos(host.Pos()), sprintf("%s is negotiated as compression value %d, not proto.CompressionEnabled: the server sends unframed blocks and no checksum is verified", nm, gc))
 		case gm != wantM:
-			c.R.Bad(rule, key, cfg, p.Pos(phiM.Pos()), sprintf("%s selects compress method %d, not compress.%s", nm, gm, x))
+			c.R.Bad(rule, key, cfg, p.Pos(host.Pos()), sprintf("%s selects compress method %d, not compress.%s", nm, gm, x))
 		default:
-			c.R.Ok(rule, key, cfg, p.Pos(phiC.Pos()), "-> proto.CompressionEnabled, compress."+x)
+			c.R.Ok(rule, key, cfg, p.Pos(host.Pos()), "-> proto.CompressionEnabled, compress."+x)
 		}
 	}
 	c.R.Count("Options.Compression constants", n)
@@ -1732,9 +1822,37 @@ func ruleNoEarlyDrop(c *Ctx, p *core.Program, rule string) {
 		return
 	}
 	var cp ssa.Instruction
-	for _, call := range core.Calls(rd) {
-		if bi, ok := call.Common().Value.(*ssa.Builtin); ok && bi.Name() == "copy" {
+	hasCopy := func(fn *ssa.Function) ssa.Instruction {
+		for _, call := range core.Calls(fn) {
+			if bi, ok := call.Common().Value.(*ssa.Builtin); ok && bi.Name() == "copy" {
+				return call.(ssa.Instruction)
+			}
+		}
+		return nil
+	}
+	cp = hasCopy(rd)
+	if cp == nil {
+		// the hand-out may live in a helper of the reader: its call sites in Read stand for the copy, and the
+		// helper itself is held to the same rule
+		for _, call := range core.Calls(rd) {
+			g := core.StaticFn(call)
+			if g == nil || g.Blocks == nil || pkgOf(g) == nil || pkgOf(g).Path() != core.PkgCompress || hasCopy(g) == nil {
+				continue
+			}
 			cp = call.(ssa.Instruction)
+			gcp := hasCopy(g)
+			for _, b := range g.Blocks {
+				for _, in := range b.Instrs {
+					st, ok := in.(*ssa.Store)
+					if !ok || readerField(st.Addr) != "data" {
+						continue
+					}
+					if len(core.ReachAvoiding(core.PointOf(gcp), func(x ssa.Instruction) bool { return x == in }, nil, nil)) > 0 {
+						c.R.Bad(rule, core.FuncName(g)+"/drop", cfg, p.Pos(st.Pos()), "the helper that hands out the frame's bytes replaces the data buffer after the copy")
+						return
+					}
+				}
+			}
 		}
 	}
 	if cp == nil {
@@ -1800,4 +1918,53 @@ func ruleNoEarlyDrop(c *Ctx, p *core.Program, rule string) {
 	if !bad {
 		c.R.Ok(rule, core.FuncName(rd), cfg, p.Pos(cp.Pos()), sprintf("%d store(s) to data after the copy, each behind a test of the frame's remaining length", n))
 	}
+}
+
+// ruleCompressInPlace (C05 / C02): compressing a block in place reads all of it before any frame is written back.
+func ruleCompressInPlace(c *Ctx, p *core.Program, rule string) {
+	c.R.Rule(rule, "where package ch hands compress.Writer.Compress a slice of the very buffer the finished frame is appended to (the in-place idiom of encodeBlock: data := buf.Buf[start:]; buf.Buf = append(buf.Buf[:start], Data...)), that call is not repeated after such an append within one encoding: a loop that compresses the block chunk by chunk and appends each frame over the region still to be read overwrites the next chunk whenever a frame is larger than its chunk (incompressible data, method None) - the following frame carries damaged bytes under a valid checksum")
+	cfg := p.Cfg.Name
+	n := 0
+	for _, fn := range p.Funcs() {
+		if pkgOf(fn) == nil || pkgOf(fn).Path() != core.PkgCh || fn.Blocks == nil {
+			continue
+		}
+		for _, call := range core.FindCalls(fn, func(f *types.Func) bool { return core.IsMethod(f, core.PkgCompress, "Writer", "Compress") }) {
+			args := call.Common().Args
+			in := args[len(args)-1]
+			fromBuf := core.DependsOn(in, func(x ssa.Value) bool {
+				sl, ok := x.(*ssa.Slice)
+				return ok && core.FieldOrigin(sl.X, 0) == "Buffer.Buf"
+			}, false)
+			if !fromBuf {
+				continue
+			}
+			n++
+			key := core.CallKey(fn, call)
+			ci := call.(ssa.Instruction)
+			// from the call: an append stored to Buffer.Buf, and from there the call again
+			var hit *core.Witness
+			for _, b := range fn.Blocks {
+				for _, x := range b.Instrs {
+					st, ok := x.(*ssa.Store)
+					if !ok || !isBufAddr(st.Addr) {
+						continue
+					}
+					if len(core.ReachAvoiding(core.PointOf(ci), func(y ssa.Instruction) bool { return y == x }, nil, nil)) == 0 {
+						continue
+					}
+					if w := core.ReachAvoiding(core.PointOf(x), func(y ssa.Instruction) bool { return y == ci }, nil, nil); len(w) > 0 {
+						hit = &w[0]
+					}
+				}
+			}
+			if hit != nil {
+				c.R.Bad(rule, key, cfg, p.Pos(call.Pos()), "Compress reads a slice of the buffer again after a frame was appended to that buffer: the frame may have overwritten the input of this call", p.TrailString(*hit)...)
+			} else {
+				c.R.Ok(rule, key, cfg, p.Pos(call.Pos()), "the whole input is compressed before the frame replaces it")
+			}
+		}
+	}
+	c.R.Count("in-place Compress calls in package ch", n)
+	c.R.Floor(rule, cfg, n, 1)
 }
